@@ -1,13 +1,14 @@
 #!/bin/bash
-# usage: try_patch.sh <patch.diff> <prop> [prop...]   — apply to /repo, run checks, always revert
+# usage: try_patch.sh <patch.diff> <prop> [prop...]  — apply the patch to a SCRATCH copy of /repo (never /repo itself), run the checks there
 set -u
 patch="$1"; shift
-cd /repo || exit 9
-if ! git diff --quiet; then echo "/repo has uncommitted changes"; exit 9; fi
-git apply "$patch" || { echo "patch does not apply"; exit 9; }
+S=/var/tmp/verif-try-$$
+rm -rf $S $S-gen; mkdir -p $S $S-gen
+rsync -a --exclude target --exclude .git /repo/ $S/
+( cd $S && patch -p1 -s -i "$patch" ) || { echo "patch does not apply"; rm -rf $S $S-gen; exit 9; }
 cd /verif
 for p in "$@"; do
-  out=$(python3 bin/check.py "$p" --no-evidence 2>&1); rc=$?
+  out=$(VERIF_REPO=$S VERIF_GEN=$S-gen VERIF_SCRATCH=$S-w python3 bin/check.py "$p" --no-evidence 2>&1); rc=$?
   echo "== $p rc=$rc"; echo "$out" | grep -E "^(violated|VIOLATION|UNDECIDED|OK|KNOWN)" | head -8
 done
-git -C /repo checkout -- . 
+rm -rf $S $S-gen $S-w
